@@ -271,17 +271,20 @@ Definition ping6_send_old (ident : Z) (data : list Z) : option (option (list Z *
      binary.BigEndian.PutUint32(upperLayerLength[:], uint32(len(h)+vv.Size()))
      xsum = header.Checksum(upperLayerLength[:], xsum)
      xsum = header.Checksum([]byte{0, 0, 0, uint8(header.ICMPv6ProtocolNumber)}, xsum)
-     for _, v := range vv.Views() { xsum = header.Checksum(v, xsum) }
+     xsum = header.Checksum(vv.ToView(), xsum)
      h2, h3 := h[2], h[3]; h[2], h[3] = 0, 0
      xsum = ^header.Checksum(h, xsum)
      h[2], h[3] = h2, h3
-     return xsum } *)
+     return xsum }
+   (since /repo 1404d7f the payload is summed as one byte string, vv.ToView() = the concatenation of
+   the views; before, view by view: "for _, v := range vv.Views() { xsum = header.Checksum(v, xsum) }",
+   wrong for an odd-length non-final view - C13's finding F7) *)
 Definition icmp6_checksum (h src dst : list Z) (vv : list (list Z)) : option Z :=
   let xsum := checksum src 0 in
   let xsum := checksum dst xsum in
   let xsum := checksum (be32 (w32 (Z.of_nat (length h) + vsize vv))) xsum in
   let xsum := checksum [0; 0; 0; 58] xsum in
-  let xsum := checksum_chunks vv xsum in
+  let xsum := checksum (concat vv) xsum in
   h0 <- put8 h 2 0 ;; h0 <- put8 h0 3 0 ;;
   Some (lnot16 (checksum h0 xsum)).
 
